@@ -214,6 +214,12 @@ def run(ctx, deps=True):
         gates_hold = not envelope(st, m.signable) and not keylist(st, m.authorized) and not posint(st, m.threshold)
         is_payload = len(x.chain) >= 2 and any("canonserialize" in (s.text or "") for s in x.chain[:1]) or _from_serializer(x)
         ok = (not gates_hold) or is_payload
+        if not ok:
+            from . import refuted_at_defaults
+
+            # a rejection of an ill-typed value of an optional parameter the property does not speak
+            # about (with the documented four arguments it cannot happen)
+            ok = refuted_at_defaults(eng, "authentication.verify_signable", tuple(m.sm.params[:4]), set(p.facts) | set(x.conds))
         ctx.count("R3.pre_loop_rejections")
         ctx.ob("R3", "pre-loop-reject|%s|%s" % (x.exc, x.chain[-1].key()), loc(x.chain[-1]), "rejection before the loop (%s: %s) %s" % (x.exc, x.why, "is the negation of an argument gate or an unserializable payload" if ok else "happens although all three argument gates hold: an extra rejection condition"), ok)
 
